@@ -85,16 +85,9 @@ theorem acknowledged_write_in_later_leader_state (c : Cluster) (hg : RaftGuarant
   rw [List.take_succ_eq_append_getElem hi, applyLog_append, hent]
   rfl
 
-/-- non-vacuity: a two-node cluster with a two-entry log (a registration and a connector), one node one
-entry behind, satisfies the premises; the theorems then say what its state machines hold -/
-def demoLog : List LEntry :=
-  [⟨1, .normal (.registerWorker "w1" "a" 4 0 10)⟩, ⟨1, .normal (.connectorCreated "c" "mqtt")⟩]
-
-def demo : Cluster :=
-  { nodes := [⟨demoLog, ⟨2, applyLog {} demoLog⟩⟩, ⟨demoLog, ⟨1, applyLog {} (demoLog.take 1)⟩⟩]
-    leaderLog := fun t => if t = 1 then some demoLog else none
-    committed := fun i t => i < 2 ∧ t = 1 }
-
+/-- non-vacuity: a two-node cluster (`demo`, Lemmas/RaftAgree.lean) with a two-entry log (a registration and
+a connector), one node one entry behind, satisfies the premises; the theorems then say what its state
+machines hold -/
 example : RaftGuarantees demo ∧ (∀ n ∈ demo.nodes, Reach n.log n.sm) ∧ Acked demo 1 1 (.connectorCreated "c" "mqtt") := by
   have hlog : ∀ l, demo.IsLog l → l = demoLog := by
     intro l h
